@@ -3,6 +3,7 @@ package verifharness
 import (
 	"bytes"
 	"fmt"
+	gossh "golang.org/x/crypto/ssh"
 	"sort"
 	"strconv"
 	"strings"
@@ -90,6 +91,10 @@ type C02Scenario struct {
 	// HoldCommandsMs holds every command goroutine at its start (used only by
 	// the counterfactual of finding F-C02-premature-shutdown).
 	HoldCommandsMs int `json:"hold_commands_ms,omitempty"`
+	// Died (SSH): that many earlier sessions of the same user were cut off
+	// (connection reset) in the middle of a read before this session starts;
+	// whatever they held of the server's read slots must be free again
+	Died int `json:"died,omitempty"`
 }
 
 func c02Line(file, n int, keep bool, pad int) string {
@@ -288,6 +293,9 @@ func c02Gen(r *Rand, tier string, i int) Scenario {
 		sc.Stalls = nil
 		ncmd = 1
 	}
+	if sc.Transport == "ssh" && r.Bool(0.12) {
+		sc.Died = r.Range(1, sc.Cfg.MaxCats+1)
+	}
 	if ncmd > 1 && r.Bool(0.4) {
 		sc.Stalls = append(sc.Stalls, StallSpec{Name: "command.delay", Site: siteSendCommand, Suffix: "/select", From: 1, To: -1,
 			DurMs: PickOf(r, 1, 50, 500)})
@@ -332,6 +340,11 @@ func c02Run(t *testing.T, s Scenario, src verifsim.DecisionSource, keep bool) *R
 	if sc.HoldCommandsMs > 0 {
 		stalls = append(stalls, StallSpec{Name: "command.hold", Site: siteCommandStart, Suffix: "/go", From: 0, To: -1, DurMs: sc.HoldCommandsMs})
 	}
+	if sc.Died > 0 && sc.Transport == "ssh" {
+		// the first lines read on this server (they belong to the sessions that die)
+		// take 50 ms each, so that the reset lands in the middle of a read
+		stalls = append(stalls, StallSpec{Name: "victim.slow-read", Site: "io/fs/readfilelcontext.go", Suffix: "/ranged", From: 0, To: 3 * sc.Died, DurMs: 50})
+	}
 	bound := sc.stallBudget() + 60*time.Second
 	opts := RunOpts{Src: src, KeepLabels: keep, MaxFake: bound + 2*time.Minute, Stalls: stallRules(stalls)}
 	if sc.Transport == "ssh" {
@@ -351,6 +364,23 @@ func c02Run(t *testing.T, s Scenario, src verifsim.DecisionSource, keep bool) *R
 		if sc.Transport == "ssh" {
 			spec.Hosts = []string{"srv1"}
 			keyPath = w.StartSSHWorld(spec.Hosts, sc.Cfg, nil)
+			if sc.Died > 0 {
+				var b bytes.Buffer
+				for n := 1; n <= 40; n++ {
+					fmt.Fprintf(&b, "victim line %d\n", n)
+				}
+				w.WriteFile("died.log", b.Bytes())
+				for k := 0; k < sc.Died; k++ {
+					rs := w.RawDial(fmt.Sprintf("died%d", k), "srv1", simUser, []gossh.AuthMethod{gossh.PublicKeys(Key(0).Signer)}, 5*time.Second)
+					if rs.DialErr == nil && rs.Shell() == nil {
+						rs.Command(CatCommand("cat", w.Data("died.log"), ""))
+						w.Sleep(120 * time.Millisecond)
+						rs.Conn.Reset()
+						w.Sim.Fault("session.cut-off-mid-read")
+					}
+				}
+				w.Sleep(300 * time.Millisecond)
+			}
 		} else {
 			w.ConfigHook = sc.Cfg.apply
 		}
